@@ -25,10 +25,11 @@ type SpecEnv struct {
 	depth   int
 	loopPre *State
 	pkg     *ssa.Package // callee contracts: the callee's package, for its package-level variables
+	ptrNames map[string]bool // names bound to an address (Ad) that stand for a pointer value, not for the content
 }
 
 func (e *SpecEnv) clone() *SpecEnv {
-	n := &SpecEnv{fx: e.fx, cur: e.cur, old: e.old, names: map[string]SV{}, bound: map[string]SV{}, callee: e.callee, depth: e.depth, loopPre: e.loopPre, pkg: e.pkg}
+	n := &SpecEnv{fx: e.fx, cur: e.cur, old: e.old, names: map[string]SV{}, bound: map[string]SV{}, callee: e.callee, depth: e.depth, loopPre: e.loopPre, pkg: e.pkg, ptrNames: e.ptrNames}
 	for k, v := range e.names {
 		n.names[k] = v
 	}
@@ -212,6 +213,16 @@ func (fx *fnExec) evalSpec(e Expr, env *SpecEnv) SV {
 	case EIdent:
 		return fx.evalIdent(x.Name, env)
 	case EUn:
+		if x.Op == "*" {
+			// *p where the name p is bound to the address of a variable or field (an argument like &x.f): its content
+			if id, isId := x.X.(EIdent); isId {
+				if _, bound := env.bound[id.Name]; !bound {
+					if ad, isAd := env.names[id.Name].(Ad); isAd && env.ptrNames[id.Name] {
+						return fx.loadIn(env.cur, ad, false)
+					}
+				}
+			}
+		}
 		v := fx.evalSpec(x.X, env)
 		switch x.Op {
 		case "!":
@@ -363,6 +374,10 @@ func (fx *fnExec) evalIdent(name string, env *SpecEnv) SV {
 	}
 	if v, ok := env.names[name]; ok {
 		if ad, isAd := v.(Ad); isAd {
+			if env.ptrNames[name] {
+				// a pointer-typed parameter bound to an address: used bare, it is some non-nil pointer
+				return Sc{fx.addrConst(ad), nil}
+			}
 			return fx.loadIn(env.cur, ad, false)
 		}
 		return v
@@ -1507,4 +1522,24 @@ func (fx *fnExec) storeOrdinal(x *ssa.Store, target string) int {
 		}
 	}
 	return 0
+}
+
+// addrConst: a symbolic non-nil pointer value standing for the address ad (one constant per distinct address term).
+func (fx *fnExec) addrConst(ad Ad) Term {
+	key := "adr$" + ad.Heap
+	if ad.Cell != nil {
+		key = "adr$" + ad.Cell.Name()
+	}
+	for _, t := range ad.Idx {
+		key += "$" + san(t.S)
+	}
+	key += san(pathSuffix(ad.Path))
+	if len(key) > 120 {
+		key = fmt.Sprintf("adr$%d", len(fx.declared))
+	}
+	if !fx.declared[key] {
+		fx.declare(key, SInt)
+		fx.assumps = append(fx.assumps, "(assert (not (= "+key+" 0)))")
+	}
+	return Term{key, SInt}
 }
